@@ -78,6 +78,19 @@ template <class T>
 static vector<vector<long>> items_of(const T& t) {
   vector<vector<long>> r;
   size_t guard = t.size() + 4;
+  // walks alternate between the prefix and the postfix increment (whose result is the position BEFORE advancing)
+  static unsigned walk = 0;
+  if (walk++ % 2) {
+    for (auto it = t.begin(); it != t.end();) {
+      auto prev = it++;
+      r.push_back(flat(L(prev->first), prev->second));
+      if (r.size() > guard) {
+        r.push_back({-99});
+        break;
+      }
+    }
+    return r;
+  }
   for (auto it = t.begin(); it != t.end(); ++it) {
     r.push_back(flat(L(it->first), it->second));
     if (r.size() > guard) {
